@@ -1,1 +1,261 @@
-// harness
+// Harnesses for src/aes.rs: WinZip AES reader control logic (C16 b, c; C09; C05 item 6).
+// PBKDF2 is environment (stubbed: arbitrary derived key); AES itself is exercised in h_aes_ctr.rs;
+// HMAC-SHA1 is the real `hmac`/`sha1` code (portable path), used both by the reader under test and,
+// in one shot over the whole ciphertext, by the oracle.
+#[allow(unused_imports)]
+use crate::verif_kit::*;
+use hmac::digest::{FixedOutput, KeyInit, Update};
+
+/// The key-derivation function as environment: whatever bytes it returns, the reader must use
+/// them as (cipher key | HMAC key | 2-byte password verifier).
+static mut DERIVED: [u8; 66] = [0u8; 66];
+static mut PBKDF2_SALT_LEN: usize = usize::MAX;
+static mut PBKDF2_ROUNDS: u32 = 0;
+static mut PBKDF2_OUT_LEN: usize = 0;
+static mut PBKDF2_PW0: u8 = 0;
+#[allow(dead_code)]
+fn stub_pbkdf2<PRF>(password: &[u8], salt: &[u8], rounds: u32, res: &mut [u8])
+where
+    PRF: KeyInit + Update + FixedOutput + Clone + Sync,
+{
+    unsafe {
+        PBKDF2_SALT_LEN = salt.len();
+        PBKDF2_ROUNDS = rounds;
+        PBKDF2_OUT_LEN = res.len();
+        PBKDF2_PW0 = if password.is_empty() { 0 } else { password[0] };
+        let mut i = 0;
+        while i < res.len() && i < 66 {
+            res[i] = DERIVED[i];
+            i += 1;
+        }
+    }
+}
+
+/// A stand-in block function for the cipher behind `Box<dyn AesCipher>`: position-dependent XOR.
+struct ToyCipher {
+    pos: u64,
+}
+fn toy_ks(i: u64) -> u8 {
+    (i as u8).wrapping_mul(37) ^ 0x5a
+}
+impl aes_ctr::AesCipher for ToyCipher {
+    fn crypt_in_place(&mut self, target: &mut [u8]) {
+        let mut i = 0;
+        while i < target.len() {
+            target[i] ^= toy_ks(self.pos);
+            self.pos += 1;
+            i += 1;
+        }
+    }
+}
+
+const HKEY: [u8; 16] = [0x0b, 0x1c, 0x2d, 0x3e, 0x4f, 0x50, 0x61, 0x72, 0x83, 0x94, 0xa5, 0xb6, 0xc7, 0xd8, 0xe9, 0xfa];
+
+macro_rules! c16_read {
+    ($name:ident, $n:expr, $calls:expr, $unwind:expr) => {
+        #[kani::proof]
+        #[kani::unwind($unwind)]
+        #[kani::stub(core::arch::x86_64::__cpuid, crate::verif_kit::stub_cpuid)]
+        #[kani::stub(core::arch::x86_64::__cpuid_count, crate::verif_kit::stub_cpuid_count)]
+        fn $name() {
+            const N: usize = $n;
+            let data: [u8; 16] = kani::any(); // N ciphertext bytes followed by the 10-byte code
+            let sched: u64 = kani::any();
+            let inner = EnvReader::<16> { data, total: N + 10, pos: 0, env: Env::short(sched) };
+            let hm = <Hmac<Sha1> as Mac>::new_from_slice(&HKEY).unwrap();
+            // oracle: the authentication code of exactly the ciphertext bytes, in order, one shot
+            let mut ref_h = hm.clone();
+            Mac::update(&mut ref_h, &data[..N]);
+            let want = ref_h.finalize().into_bytes();
+            let mut tag_ok = true;
+            let mut i = 0;
+            while i < 10 {
+                if data[N + i] != want[i] {
+                    tag_ok = false;
+                }
+                i += 1;
+            }
+            let mut rd = AesReaderValid {
+                reader: inner,
+                data_remaining: N as u64,
+                cipher: Box::new(ToyCipher { pos: 0 }),
+                hmac: hm,
+                finalized: false,
+            };
+            let mut got = [0u8; 4];
+            let mut n = 0usize;
+            let mut eof_ok = false;
+            let mut errored = false;
+            let mut call = 0;
+            while call < $calls {
+                let l: usize = kani::any();
+                kani::assume(l <= 2);
+                let mut buf = [0u8; 2];
+                match rd.read(&mut buf[..l]) {
+                    Ok(m) => {
+                        assert!(m <= l);
+                        assert!(!errored || m == 0);
+                        if m == 0 && l > 0 {
+                            assert_eq!(n, N);
+                            eof_ok = true;
+                        }
+                        let mut j = 0;
+                        while j < m {
+                            assert!(n < N && !eof_ok);
+                            got[n] = buf[j];
+                            n += 1;
+                            j += 1;
+                        }
+                    }
+                    Err(e) => {
+                        core::mem::forget(e);
+                        // the only failure of a healthy source is the authentication code, and it is
+                        // raised by the very read that consumed the last ciphertext byte
+                        assert!(!tag_ok, "read failed although the authentication code is right");
+                        assert!(!errored);
+                        assert_eq!(rd.data_remaining, 0);
+                        errored = true;
+                    }
+                }
+                call += 1;
+            }
+            // plaintext = ciphertext XOR key stream, position carried across calls
+            let mut i = 0;
+            while i < n {
+                assert_eq!(got[i], data[i] ^ toy_ks(i as u64));
+                i += 1;
+            }
+            if eof_ok && !errored {
+                // THE property: a completed read implies the stored code authenticates the data
+                assert!(tag_ok, "entry read to EOF although its authentication code is wrong");
+                assert_eq!(rd.reader.pos, N + 10);
+            }
+            if n == N {
+                assert!(tag_ok, "all data delivered although the authentication code is wrong");
+            }
+            kani::cover!(eof_ok && !errored);
+            kani::cover!(errored);
+            core::mem::forget(rd);
+        }
+    };
+}
+/// C16(c)/C09 AesReaderValid::read over a pure-environment source (N ciphertext bytes + 10-byte
+/// code, arbitrary short reads) with arbitrary caller buffer sizes 0..=2: bytes delivered are
+/// ciphertext XOR key stream (position carried across calls; toy block function behind the
+/// `dyn AesCipher`), a failure happens only on the read that consumes the last ciphertext byte
+/// and only when the stored 10 bytes differ from HMAC-SHA1(ciphertext)[..10] (real hmac/sha1
+/// code, one-shot oracle); all N bytes are delivered / EOF is reported only when the code
+/// matches; after EOF reads return 0. Variant N=1, 3 caller reads.
+// @h prop=C16,C09 tier=quick feat=aes t=1200 mem=12 name=c16_read_mac_n1
+c16_read!(c16_read_mac_n1, 1, 3, 82);
+/// C16(c)/C09 as above, N=3 ciphertext bytes, 5 caller reads.
+// @h prop=C16,C09 tier=thorough feat=aes t=2400 mem=16 name=c16_read_mac_n3
+c16_read!(c16_read_mac_n3, 3, 5, 82);
+
+macro_rules! c16_validate {
+    ($name:ident, $mode:expr, $klen:expr) => {
+        #[kani::proof]
+        #[kani::unwind(82)]
+        #[kani::stub(pbkdf2::pbkdf2, stub_pbkdf2)]
+        #[kani::stub(core::arch::x86_64::__cpuid, crate::verif_kit::stub_cpuid)]
+        #[kani::stub(core::arch::x86_64::__cpuid_count, crate::verif_kit::stub_cpuid_count)]
+        fn $name() {
+            const K: usize = $klen;
+            const S: usize = K / 2;
+            // derived key: concrete, pairwise distinct key material (so a wrong slice is visible),
+            // symbolic 2-byte verifier
+            let v: [u8; 2] = kani::any();
+            unsafe {
+                let mut i = 0;
+                while i < 2 * K {
+                    DERIVED[i] = (i as u8).wrapping_mul(7).wrapping_add(3);
+                    i += 1;
+                }
+                DERIVED[2 * K] = v[0];
+                DERIVED[2 * K + 1] = v[1];
+            }
+            let file: [u8; 20] = kani::any(); // salt | verifier | ...
+            let csize: u64 = kani::any();
+            kani::assume(csize >= (S + 12) as u64);
+            let src = EnvReader::<20> { data: file, total: 20, pos: 0, env: Env::quiet() };
+            let pw: [u8; 1] = kani::any();
+            let r = AesReader::new(src, $mode, csize).validate(&pw);
+            let matches = file[S] == v[0] && file[S + 1] == v[1];
+            match r {
+                Ok(Some(valid)) => {
+                    assert!(matches, "wrong password verifier accepted");
+                    unsafe {
+                        assert_eq!(PBKDF2_SALT_LEN, S);
+                        assert_eq!(PBKDF2_ROUNDS, 1000);
+                        assert_eq!(PBKDF2_OUT_LEN, 2 * K + 2);
+                        assert_eq!(PBKDF2_PW0, pw[0]);
+                    }
+                    assert_eq!(valid.reader.pos, S + 2);
+                    assert_eq!(valid.data_remaining, csize - (S + 12) as u64);
+                    assert!(!valid.finalized);
+                    // HMAC keyed with the second K derived bytes: same state as a MAC built from them
+                    let mut hk = [0u8; K];
+                    let mut i = 0;
+                    while i < K {
+                        hk[i] = ((K + i) as u8).wrapping_mul(7).wrapping_add(3);
+                        i += 1;
+                    }
+                    let a = valid.hmac.clone().finalize().into_bytes();
+                    let b = <Hmac<Sha1> as Mac>::new_from_slice(&hk).unwrap().finalize().into_bytes();
+                    let mut i = 0;
+                    while i < 20 {
+                        assert_eq!(a[i], b[i]);
+                        i += 1;
+                    }
+                    kani::cover!(true);
+                    core::mem::forget(valid);
+                }
+                Ok(None) => {
+                    assert!(!matches, "right password verifier rejected");
+                    kani::cover!(true);
+                }
+                Err(e) => {
+                    core::mem::forget(e);
+                    assert!(false, "validate failed on a complete header");
+                }
+            }
+        }
+    };
+}
+/// C16(b) AesReader::validate, AES-128, key derivation as environment (PBKDF2 stubbed: it is
+/// called with the 8-byte salt read from the entry, 1000 rounds, 2*16+2 output bytes and the
+/// caller's password): accepted iff the two stored verifier bytes equal the last two derived
+/// bytes (both symbolic); then exactly salt+2 bytes were consumed, the ciphertext length is
+/// compressed_size - (salt + 2 + 10) for every compressed_size, and the MAC is keyed with
+/// derived[16..32].
+// @h prop=C16 tier=quick feat=aes t=1200 mem=12 name=c16_validate_aes128
+c16_validate!(c16_validate_aes128, AesMode::Aes128, 16);
+/// C16(b) as above for AES-256 (16-byte salt, 66 derived bytes, MAC key derived[32..64]).
+// @h prop=C16 tier=thorough feat=aes t=2400 mem=16 name=c16_validate_aes256
+c16_validate!(c16_validate_aes256, AesMode::Aes256, 32);
+
+/// C05(6)/C16 AesReader::new on an entry shorter than salt + verifier + code (hostile
+/// compressed_size): no arithmetic overflow panic; with a too-small size validation must fail or
+/// the reader must deliver no data.
+// @h prop=C05,C16 tier=quick feat=aes t=600 mem=8
+#[kani::proof]
+#[kani::unwind(36)]
+#[kani::stub(pbkdf2::pbkdf2, stub_pbkdf2)]
+#[kani::stub(core::arch::x86_64::__cpuid, crate::verif_kit::stub_cpuid)]
+#[kani::stub(core::arch::x86_64::__cpuid_count, crate::verif_kit::stub_cpuid_count)]
+fn c05_aes_reader_new_any_size() {
+    let csize: u64 = kani::any();
+    let k: u8 = kani::any();
+    kani::assume(k < 3);
+    let mode = match k {
+        0 => AesMode::Aes128,
+        1 => AesMode::Aes192,
+        _ => AesMode::Aes256,
+    };
+    let file: [u8; 20] = kani::any();
+    let src = EnvReader::<20> { data: file, total: 20, pos: 0, env: Env::quiet() };
+    let rd = AesReader::new(src, mode, csize);
+    kani::cover!(csize < 10);
+    kani::cover!(csize > 1000);
+    core::mem::forget(rd);
+}
